@@ -15,6 +15,46 @@ def prefilter(op, m):
     return not has_fuel(m)
 
 
+def _nums(v, acc):
+    from .wire import Num, Obj
+    if isinstance(v, Num):
+        acc.append(v.text)
+    elif isinstance(v, Obj):
+        for _, x in v.kvs:
+            _nums(x, acc)
+    elif isinstance(v, list):
+        for x in v:
+            _nums(x, acc)
+    elif isinstance(v, dict):
+        if isinstance(v.get("t"), str) and isinstance(v.get("v"), str) and v["t"] not in ("string", "mystring"):
+            acc.append(v["v"])
+        for x in v.values():
+            _nums(x, acc)
+    elif isinstance(v, (int, float)) and not isinstance(v, bool):
+        acc.append(repr(v))
+
+
+def outside_multipleOf_domain(o):
+    """multipleOf is evaluated with a float64 quotient, exact only below 2^53: the properties restrict multipleOf operands
+    accordingly. An operation whose schema uses multipleOf and whose instances contain a number of magnitude >= 2^50 is outside."""
+    from fractions import Fraction
+    from .gen_schema import has_key
+    a = o.get("args") or {}
+    docs = [a.get("schema"), a.get("schema2")] + [d[1] for d in (a.get("docs") or []) if isinstance(d, list) and len(d) == 2]
+    if not any(has_key(d, {"multipleOf"}) for d in docs if d is not None):
+        return False
+    acc = []
+    _nums(a.get("insts"), acc)
+    _nums(a.get("ginsts"), acc)
+    for t in acc:
+        try:
+            if abs(Fraction(t)) >= 2**50:
+                return True
+        except Exception:
+            pass
+    return False
+
+
 def norm_targets(ts):
     out = []
     for t in ts or []:
@@ -24,6 +64,8 @@ def norm_targets(ts):
 
 
 def judge_validate(o, go, m, compare_targets=True, compare_log=True):
+    if outside_multipleOf_domain(o):
+        return "skip", "multipleOf with an operand beyond 2^50: outside the property's domain (float quotient)"
     if go is None:
         return "violation:harness", "no answer from harness"
     if go.get("outcome") == "harness-error":
